@@ -64,16 +64,14 @@ C01_MsgBoundaries ==
 (* ---- C02 / C03: after the network healed (and the reader resumed) everything written is delivered and both   *)
 (* backlogs return to zero, within a bound derived from the retransmission / probe timers observed at the heal   *)
 (* instant.  The bound is deliberately generous: the failure modes are wedges.                                    *)
-RECURSIVE MaxWait(_, _, _)
-MaxWait(buf, t, acc) == IF buf = <<>> THEN acc
-                        ELSE MaxWait(Tail(buf), t, Max(acc, Max(Head(buf).resendts - t, Head(buf).rto)))
-HealBound(h, t) ==
-  LET n    == Len(h.snd_buf) + Len(h.snd_queue) + 4
-      wait == MaxWait(h.snd_buf, t, h.rx_rto)
-      prb  == IF h.rmt_wnd = 0 \/ h.probe_wait > 0 THEN 2 * PROBE_LIMIT ELSE 0
-  IN wait + prb + n * (3 * Max(h.rx_rto, RTO_DEF) + 4 * h.interval)
 IsSettled == l > 1 /\ Obs.ev = "settled" /\ Obs.checked /\ ~Obs.panic
-C02_Drained == IsSettled => Obs.drained
+(* known finding C02/Drained_MsgExceedsWindow: in message mode a message with more fragments than the receiver's window *)
+(* can never be delivered -- its fragments fill rcv_queue, the last one cannot enter, PeekSize says "incomplete".        *)
+OversizeMsgWedge(st) == /\ st.stream = 0 /\ Len(st.rcv_queue) >= st.rcv_wnd
+                        /\ \A i \in 1..Len(st.rcv_queue) : st.rcv_queue[i].frg > 0
+WedgedByOversizeMsg == OversizeMsgWedge(Obs.end1) \/ OversizeMsgWedge(Obs.end2)
+C02_Drained == IsSettled /\ ~WedgedByOversizeMsg => Obs.drained
+C02_Drained_MsgExceedsWindow == IsSettled /\ WedgedByOversizeMsg => Obs.drained
 C02_WithinBound == IsSettled /\ Obs.drained /\ Obs.bounded =>
                      Obs.now - Obs.heal <= HealBound(Obs.heal1, Obs.heal) + HealBound(Obs.heal2, Obs.heal)
 
